@@ -329,7 +329,14 @@ void Var::operator=(const Var& v)
 	}
 	
 	if(!isPod())
+	{
+		// v may be an element or property of *this: copy it before releasing our storage
+		Var tmp(v);
 		free();
+		memcpy(this, &tmp, sizeof(tmp));
+		tmp._type = NONE;
+		return;
+	}
 	memcpy(this, &v, sizeof(v));
 	switch(_type)
 	{
